@@ -198,3 +198,97 @@ Proof.
 Qed.
 
 End FS.
+
+(* ---------- each path is enumerated once ---------- *)
+Definition under (here : path) (nm : string) (p : path) : Prop := exists suf, p = here ++ nm :: suf.
+
+Lemma under_inj here n1 n2 p : under here n1 p -> under here n2 p -> n1 = n2.
+Proof. intros (s1 & ->) (s2 & H). apply app_inv_head in H. inversion H. reflexivity. Qed.
+
+Lemma walk_under n : forall here p, In p (walk n here) -> exists nm, under here nm p.
+Proof.
+  induction n as [k|a t|kids IH] using fnode_ind2; intros here p; try (cbn; intros []).
+  rewrite walk_dir. unfold walk_list. intros H. apply in_flat_map in H. destruct H as ([nm k] & Hk & [H|H]); cbn [fst snd] in *.
+  - subst. exists nm. exists nil. reflexivity.
+  - rewrite Forall_forall in IH. destruct (IH _ Hk _ _ H) as (nm' & suf & ->). exists nm, (nm' :: suf).
+    rewrite <- app_assoc. reflexivity.
+Qed.
+
+Lemma walk_piece_under nm k here p :
+  In p ((here ++ [nm]) :: walk k (here ++ [nm])) -> under here nm p.
+Proof.
+  intros [<-|H]; [exists nil; reflexivity|]. destruct (walk_under _ _ _ H) as (nm' & suf & ->).
+  exists (nm' :: suf). rewrite <- app_assoc. reflexivity.
+Qed.
+
+Lemma walk_NoDup n : forall here, wf n -> NoDup (walk n here).
+Proof.
+  induction n as [k|a t|kids IH] using fnode_ind2; intros here Hw; try (cbn; constructor).
+  rewrite walk_dir. inversion Hw as [| |kids' Hnd Hall]; subst. unfold walk_list. clear Hw.
+  induction kids as [|[nm k] r IHr]; [constructor|].
+  inversion IH as [|x l Hk IHl]; subst. inversion Hall as [|x l [_ Hwk] Hall']; subst.
+  cbn [map fst] in Hnd. inversion Hnd as [|x l Hnotin Hnd']; subst. cbn [snd fst] in *.
+  cbn [flat_map fst snd].
+  assert (Hrest : forall p, In p (flat_map (fun x => (here ++ [fst x]) :: walk (snd x) (here ++ [fst x])) r) ->
+                            exists nm', In nm' (map fst r) /\ under here nm' p).
+  { intros p Hp. apply in_flat_map in Hp. destruct Hp as ([nm' k'] & Hin & Hp). exists nm'. split.
+    - apply in_map_iff. exists (nm', k'). auto.
+    - apply walk_piece_under with (k := k'). exact Hp. }
+  assert (Hdisj : forall p, In p ((here ++ [nm]) :: walk k (here ++ [nm])) ->
+                            ~ In p (flat_map (fun x => (here ++ [fst x]) :: walk (snd x) (here ++ [fst x])) r)).
+  { intros p Hp Hq. destruct (Hrest p Hq) as (nm' & Hin & Hu).
+    pose proof (under_inj here nm nm' p (walk_piece_under nm k here p Hp) Hu). subst. contradiction. }
+  change ((here ++ [nm]) :: walk k (here ++ [nm]) ++ flat_map (fun x => (here ++ [fst x]) :: walk (snd x) (here ++ [fst x])) r)
+    with (((here ++ [nm]) :: walk k (here ++ [nm])) ++ flat_map (fun x => (here ++ [fst x]) :: walk (snd x) (here ++ [fst x])) r).
+  assert (Hpiece : NoDup ((here ++ [nm]) :: walk k (here ++ [nm]))).
+  { constructor; [|apply Hk; exact Hwk]. intros Hin. destruct (walk_under _ _ _ Hin) as (nm' & suf & E).
+    rewrite <- app_assoc in E. apply app_inv_head in E. discriminate. }
+  assert (HB0 : NoDup (flat_map (fun x => (here ++ [fst x]) :: walk (snd x) (here ++ [fst x])) r)) by (apply IHr; assumption).
+  revert Hpiece Hdisj HB0.
+  generalize ((here ++ [nm]) :: walk k (here ++ [nm])) as A.
+  generalize (flat_map (fun x => (here ++ [fst x]) :: walk (snd x) (here ++ [fst x])) r) as B.
+  intros B A HA Hd HB. induction A as [|a A IHA]; [exact HB|]. cbn. inversion HA; subst. constructor.
+  - intros Hin. apply in_app_or in Hin. destruct Hin as [Hin|Hin]; [contradiction|]. apply (Hd a (or_introl eq_refl) Hin).
+  - apply IHA; [assumption|]. intros p Hp. apply Hd. right. exact Hp.
+Qed.
+
+Theorem counted_NoDup root is_src F d : wf root -> NoDup (counted root is_src F [d]).
+Proof.
+  intros Hwf. unfold counted, iter. cbn [flat_map]. rewrite app_nil_r.
+  apply NoDup_filter. apply NoDup_filter. unfold rglob. destruct (node_at root d) as [n|] eqn:E; [|constructor].
+  apply walk_NoDup. eapply wf_sub; eauto.
+Qed.
+
+(* every counted path is its own realpath *)
+Theorem counted_real root is_src F dirs p : wf root ->
+  Forall (fun d => is_real root d = true) dirs ->
+  In p (counted root is_src F dirs) -> forall f, realpath root f p = Ok p.
+Proof.
+  intros Hwf Hd Hin f. apply realpath_of_real. unfold counted in Hin. apply filter_In in Hin. destruct Hin as [Hin Hsk].
+  unfold iter in Hin. apply in_flat_map in Hin. destruct Hin as (d & Hdd & Hin). apply filter_In in Hin. destruct Hin as [Hin Hc].
+  rewrite Forall_forall in Hd. apply (rglob_real root d p Hwf (Hd d Hdd) Hin).
+  rewrite (skipped_is_link root is_src F dirs p Hc) in Hsk. unfold is_link_at in Hsk. rewrite negb_involutive in Hsk. exact Hsk.
+Qed.
+
+(* ---------- creating a link changes nothing in the link-free tree ---------- *)
+Lemma rl_list_app a b : rl_list (a ++ b) = rl_list a ++ rl_list b.
+Proof. unfold rl_list. apply flat_map_app. Qed.
+
+Lemma add_link_rl w : forall n nm a t, remove_links (add_node n w nm (Link a t)) = remove_links n.
+Proof.
+  induction w as [|c r IH]; intros n nm a t; destruct n as [k|kids|a' t']; try reflexivity.
+  - cbn [add_node]. rewrite !remove_links_dir, rl_list_app. unfold rl_list at 2. cbn. rewrite app_nil_r. reflexivity.
+  - cbn [add_node]. rewrite !remove_links_dir. f_equal.
+    induction kids as [|[n0 k0] l IHl]; [reflexivity|]. cbn [map fst snd].
+    change ((n0, k0) :: l) with ([(n0, k0)] ++ l).
+    change ((if String.eqb n0 c then (n0, add_node k0 r nm (Link a t)) else (n0, k0)) :: map (fun x => if String.eqb (fst x) c then (fst x, add_node (snd x) r nm (Link a t)) else x) l)
+      with ([if String.eqb n0 c then (n0, add_node k0 r nm (Link a t)) else (n0, k0)] ++ map (fun x => if String.eqb (fst x) c then (fst x, add_node (snd x) r nm (Link a t)) else x) l).
+    rewrite !rl_list_app, IHl. f_equal.
+    destruct (String.eqb n0 c); [|reflexivity].
+    specialize (IH k0 nm a t). unfold rl_list. cbn [flat_map fst snd].
+    destruct k0 as [k|kk|a' t'].
+    + destruct r; reflexivity.
+    + assert (E : exists kk', add_node (Dir kk) r nm (Link a t) = Dir kk') by (destruct r; eexists; reflexivity).
+      destruct E as (kk' & E). rewrite E in *. cbv iota beta. rewrite IH. reflexivity.
+    + destruct r; reflexivity.
+Qed.
